@@ -66,4 +66,8 @@ def texSetterNames : List Nat → Option (List Nat × List Nat)
   | 105 :: 102 :: rest => some (rest ++ [116, 114, 117, 101], rest ++ [102, 97, 108, 115, 101])
   | _ => none
 
+/-- TeX's verdict for a relation character (`<` 60, `>` 62, `=` 61) on two values (integers, or dimensions in sp) -/
+def relVerdict {β} [LT β] [DecidableEq β] [DecidableRel (α := β) (· < ·)] (c : Nat) (a b : β) : Bool :=
+  if c = 60 then decide (a < b) else if c = 62 then decide (b < a) else decide (a = b)
+
 end PlasVerif.Spec.TeXTests
